@@ -110,7 +110,8 @@ Definition check_pct shape axis rtol atol x out : bool :=
 Fixpoint pair_pos (nch i j : nat) : nat :=
   match i with O => j | S i' => (nch + pair_pos (nch - 1) i' (j - 1))%nat end.
 Definition corr_of (nch : nat) (corr : list (list float)) : nat -> nat -> nat -> Q :=
-  fun i j => qsig (ql (nth (pair_pos nch i j) corr [])).
+  let tbl := map ql corr in          (* converted once *)
+  fun i j => qsig (nth (pair_pos nch i j) tbl []).
 
 Definition check_rows (nch M : nat) (atol : Q) (f : nat -> nat -> nat -> Q) (out : list (list float)) : bool :=
   Nat.eqb (length out) (nch * nch)
@@ -121,7 +122,7 @@ Definition check_xcorr nch N (atol : float) corr out : bool :=
   check_rows nch (N + N - 1) (f2q atol) (xcorr_fill (corr_of nch corr)) out.
 Definition check_xcorr_norm nch N (atol : float) corr (cc : list float) out : bool :=
   check_rows nch (N + N - 1) (f2q atol)
-             (xcorr_norm_fill (corr_of nch corr) (fun i j => nth (i * nch + j) (ql cc) 0) N) out.
+             (let ccq := ql cc in xcorr_norm_fill (corr_of nch corr) (fun i j => nth (i * nch + j) ccq 0) N) out.
 
 (* ---------------------------------------------------------------- correlation_spectrum *)
 Definition check_corrspec (n : nat) (norm : bool) (x1 x2 : list float) (X1 X2 : list fc) (out : list float) : bool :=
